@@ -25,7 +25,10 @@ func (g *G) Mutate(in []byte, k int) []byte {
 				}
 			}
 		}
-		switch g.R.Intn(6) {
+		switch g.R.Intn(7) {
+		case 6: // insert a well-formed multi-byte UTF-8 character (display names, reason phrases and bodies carry them)
+			u := []byte(g.R.Pick([]string{"\u00fc", "\u00e9", "\u20ac", "\u4e2d", "\U0001F600", "\u00df\u00e4"}))
+			b = append(b[:p], append(u, b[p:]...)...)
 		case 0: // replace
 			b[p] = g.hostileByte()
 		case 1: // insert
